@@ -19,7 +19,8 @@ THEOREMS = ["view_shape", "ctorNew_spec", "ctorArr_spec", "setCapacity_spec", "s
             "Props.Args.gen_arg_to_int_spec", "Props.Args.gen_arg_to_int_plain", "Props.Args.gen_arg_to_uint_eq_prelude", "Props.Args.gen_arg_to_uint_plain", "Props.Args.gen_arg_to_uint_kind_independent",
             # T28: the copying paths read their sources before a resize can make them stale (Gen/SrcReads.lean, Py/SrcReads.lean)
             "Props.SrcReads.gen_sources_read_safely", "Props.SrcReads.gen_paths_cover", "Props.SrcReads.gen_paths_resize_then_write",
-            "Py.SrcReads.unguarded_read_after_resize_refused", "Py.SrcReads.weak_guard_in_loop_refused", "Py.SrcReads.conditional_guard_in_loop_refused", "Py.SrcReads.conditional_guard_single_write_safe", "Py.SrcReads.guarded_read_safe", "Py.SrcReads.late_guard_refused"]
+            "Py.SrcReads.unguarded_read_after_resize_refused", "Py.SrcReads.weak_guard_in_loop_refused", "Py.SrcReads.conditional_guard_in_loop_refused", "Py.SrcReads.conditional_guard_single_write_safe", "Py.SrcReads.guarded_read_safe", "Py.SrcReads.late_guard_refused",
+            "Py.SrcReads.run_append", "Py.SrcReads.safe_prefix", "Py.SrcReads.write_ok_iff", "Py.SrcReads.resize_stales"]
 RULE = ("seeded histories of 1-14 (thorough: up to 40) public calls per object on the four container classes x every "
         "supported raw dtype: construction from sizes or arrays, append of arrays / waveforms / sequences, load_data "
         "with and without copy and with sub-ranges, capacity / sample_count / timing assignment, writes through the data "
